@@ -60,6 +60,21 @@ def float_cases(tier):
                         if k >= 100 and NP not in (1, 3):
                             continue
                         C.append(dict(t0=t0, dt=dt, tend=t0 + (k + frac) * dt, NP=NP, NL=2 if (NP == 2 and k == 3) else 1))
+    # the same bookkeeping in the MPI controller (simulated MPI, one rank per step of a block) ...
+    for t0 in (0.0, 1.0e6):
+        for dt in (0.1, 0.3, 1.0 / 3.0):
+            for k in (1, 3, 10, 100) if tier == 'quick' else (1, 2, 3, 7, 10, 33, 100):
+                for frac in (0.0, 0.5):
+                    for NP in (2, 3) if tier == 'quick' else (2, 3, 4, 5):
+                        if k >= 100 and (NP != 3 or frac):
+                            continue
+                        C.append(dict(t0=t0, dt=dt, tend=t0 + (k + frac) * dt, NP=NP, NL=1, ctrl='mpi', sched=k + NP))
+    # ... and in the ParaDiag controller, which by its documentation always completes its block: only block-aligned end times
+    for t0 in (0.0, 1.0e6, -3.7):
+        for dt in (0.1, 0.3, 0.25):
+            for NP in (2, 3) if tier == 'quick' else (1, 2, 3, 4):
+                for nb in (1, 2, 5) if tier == 'quick' else (1, 2, 5, 33):
+                    C.append(dict(t0=t0, dt=dt, tend=t0 + nb * NP * dt, NP=NP, NL=1, ctrl='paradiag'))
     return C
 
 
@@ -87,7 +102,10 @@ def run(tier, seed):
     rep.assumptions = ev1.get('assumptions', []) + [
         'float part: fixed-step runs with non-dyadic (t0, dt, Tend); times are projected to ranks of the floats that occur (exact '
         'comparisons, no arithmetic on rounded values); the expected step count is computed in exact rational arithmetic from the float '
-        'inputs; "up to rounding" = within 1e-9*dt of Tend']
+        'inputs; "up to rounding" = within 1e-9*dt of Tend or within the rounding error the additions of the run can accumulate at the '
+        'magnitude of the times (capped at dt/4)',
+        'float part covers controller_nonMPI, controller_MPI (simulated MPI, one rank per step of a block) and controller_ParaDiag_nonMPI '
+        '(block-aligned end times only: that controller documents that it always completes its block)']
     rep.rule = ev1['coverage'].get('rule', '') + ' | float part: cases = (t0, dt, Tend, steps per block); non-trivial = more than one block'
     known = load_known()
     scratch = tempfile.mkdtemp(prefix='verif_c06f_')
@@ -160,4 +178,7 @@ def run(tier, seed):
 def rounding_extra_step(r):
     """exactly one step more than expected and the surplus step starts within rounding of Tend"""
     st = r['steps']
-    return len(st) == r['n_expected'] + 1 and st[-1]['near_tend'] and all(not s['near_tend'] for s in st[:-1])
+    n = r['n_expected']
+    # the ParaDiag controller always completes its block: there the surplus is one whole block
+    surplus = r['case']['NP'] if r['case'].get('ctrl') == 'paradiag' else 1
+    return len(st) == n + surplus and st[n]['near_tend'] and all(not s['near_tend'] for s in st[:n])
